@@ -163,7 +163,7 @@ class UnitDefinition(NamedDefinition, errors.WithDefErr):
             is_base = True
             scale = getattr(self.converter, "scale", 1)
             if scale != 1:
-                return self.def_err(
+                raise self.def_err(
                     "Base unit definitions cannot have a scale different to 1. "
                     f"(`{scale}` found)"
                 )
@@ -244,7 +244,7 @@ class DerivedDimensionDefinition(DimensionDefinition):
             raise self.def_err(errors.MSG_INVALID_DIMENSION_NAME)
 
         if not all(map(errors.is_dim, self.reference.keys())):
-            return self.def_err(
+            raise self.def_err(
                 "derived dimensions must only reference other dimensions"
             )
 
